@@ -2,6 +2,7 @@
 """atheris target: python target.py <mode> <findings.jsonl> [libFuzzer args...]
 
 mode: query-text | query-struct | pointer-text (C06 outcome-validity oracle)
+      rfc-text (independent RFC 9535 parser / typing checker / evaluator as oracle: C01, C02, C07)
       c10-text (C10 string-form round trip oracle) | c04-pointer (C04 RFC 6901 reference oracle)
 The semantic oracle (C06's outcome-validity predicate) sits inside the target.  A finding does not
 stop the campaign: it is written once per signature to the findings file and the search continues.
@@ -17,6 +18,12 @@ import atheris  # noqa: E402
 
 with atheris.instrument_imports(include=["jsonpath"]):
     import jsonpath  # noqa: F401
+if mode == "rfc-text":
+    # the hand-written reference parser is instrumented too: its branches give the coverage gradient towards
+    # grammatical text that the library's regex lexer (C code) cannot give
+    with atheris.instrument_imports(include=["vf.ref.parse9535", "vf.ref.typing9535"]):
+        import vf.ref.parse9535  # noqa: F401
+        import vf.ref.typing9535  # noqa: F401
 
 import random  # noqa: E402
 
@@ -37,6 +44,7 @@ def flush():
     if execs[0] % 2000 == 0:
         with open(findings_path + ".count", "w") as f:
             f.write("%d %d\n" % (execs[0], stats.evaluations))
+            f.write(json.dumps({k: v for k, v in stats.classes.items() if len(k) < 60}) + "\n")
 
 
 def one_query_text(data):
@@ -117,8 +125,23 @@ def one_c04_pointer(data):
     flush()
 
 
+RFC_DOCS = [{"a": 1, "b": [1, "a", None, {"a": 2}], "c": {"a": "ab", "d": [0, 1.5, True]}, "": {"a": []}},
+            [[1, 2, 3], {"a": 1, "b": 2}, "abc", 0, None, False, {"a": {"a": {"a": 1}}}]]
+
+
+def one_rfc_text(data):
+    from vf import textfuzz
+    fdp = atheris.FuzzedDataProvider(data)
+    text = fdp.ConsumeUnicodeNoSurrogates(200)
+    execs[0] += 1
+    textfuzz.judge_text(stats, text, RFC_DOCS, want="any", origin="textfuzz")
+    flush()
+
+
 if mode == "query-text":
     atheris.Setup(argv, one_query_text)
+elif mode == "rfc-text":
+    atheris.Setup(argv, one_rfc_text)
 elif mode == "c10-text":
     atheris.Setup(argv, one_c10_text)
 elif mode == "c04-pointer":
